@@ -129,6 +129,24 @@ type VerifController struct {
 	// the last ProcessNextWorkItem / ProcessNextCommand processed
 	LastErr    error
 	LastCmdErr error
+	// informersStarted: StartInformers was called; the indexers then belong to the
+	// running informers and Reset leaves them alone
+	informersStarted bool
+}
+
+// StartInformers starts the controller's own shared informer factory (the one its
+// event handlers, including the filtered Command handler, were registered on in
+// Initialize) against the client given to NewVerifController and waits for the sync.
+// Objects created in that client afterwards reach the controller through the real
+// informer -> FilteringResourceEventHandler -> addCommand path.
+func (v *VerifController) StartInformers(stopCh <-chan struct{}) {
+	v.informersStarted = true
+	v.c.vcInformerFactory.Start(stopCh)
+	for typ, ok := range v.c.vcInformerFactory.WaitForCacheSync(stopCh) {
+		if !ok {
+			panic("informer cache failed to sync: " + typ.String())
+		}
+	}
 }
 
 // NewVerifController mirrors newFakeController of queue_controller_test.go.
@@ -179,7 +197,7 @@ func (v *VerifController) Reset(vc vcclientset.Interface, kube kubernetes.Interf
 	c.podGroups = make(map[string]map[string]struct{})
 	c.pgMutex.Unlock()
 	for _, ix := range []cache.Indexer{v.QueueIndexer(), v.PodGroupIndexer(), v.CommandIndexer()} {
-		if ix != nil {
+		if ix != nil && !v.informersStarted {
 			_ = ix.Replace(nil, "")
 		}
 	}
